@@ -201,3 +201,254 @@ func rulePendingInputRowOwners(c *report.Ctx) {
 		c.Fail("deleteRawUnminedInput", "no deleter of pending-input rows found (anchor lost)", "")
 	}
 }
+
+// ruleEveryInputSized (C02): the signed-size estimate, from which the fee is computed, counts every input.
+func ruleEveryInputSized(c *report.Ctx) {
+	p := c.P
+	c.Rule("every-input-sized", "estimateSignedSize adds the size of every credit it is given: the running total carried around its loop over the inputs is increased on every way back to the loop head (no iteration — a skipped 'duplicate', an input sharing its previous transaction with another — leaves it unchanged): the fee is the relay minimum for this size, so an input that is not counted makes the fee too small for the signed transaction", 1)
+	f := fn(c, pkgWallet, "WalletManager", "estimateSignedSize")
+	if f == nil {
+		return
+	}
+	n := 0
+	for _, b := range f.Blocks {
+		for _, in := range b.Instrs {
+			ph, ok := in.(*ssa.Phi)
+			if !ok {
+				break
+			}
+			bt, isBasic := ph.Type().Underlying().(*types.Basic)
+			if !isBasic || bt.Info()&types.IsInteger == 0 {
+				continue
+			}
+			// a loop-carried total: one edge from outside the loop is a constant, the others come from inside
+			isAcc := false
+			for i, e := range ph.Edges {
+				if k, isK := e.(*ssa.Const); isK && k.Value != nil && k.Value.ExactString() == "0" && !b.Dominates(b.Preds[i]) {
+					isAcc = true
+				}
+			}
+			if !isAcc || ph.Comment == "rangeindex" {
+				continue
+			}
+			// it must be what the function returns (through + and conversions)
+			if !flowsToReturn(ph, 0) {
+				continue
+			}
+			n++
+			key := sk(f) + ":total-advances"
+			stale := false
+			for i, e := range ph.Edges {
+				if b.Dominates(b.Preds[i]) && e == ssa.Value(ph) {
+					stale = true
+				}
+			}
+			if stale {
+				c.Fail(key, "an iteration over the inputs can return to the loop head with the running size unchanged: that input is left out of the signed-size estimate, the fee computed from it is below the relay minimum for the real transaction (visible once several inputs share a previous transaction and the draft exceeds ~1000 bytes)", posOf(c, ph))
+			} else {
+				c.OK(key, "every way back to the loop head carries an increased total", posOf(c, ph))
+			}
+		}
+	}
+	if n == 0 {
+		c.Fail(sk(f)+":total-advances", "no running size total found in estimateSignedSize (anchor lost)", p.Pos(f.Pos()))
+	}
+}
+
+// flowsToReturn: v reaches a Return through arithmetic, conversions and phis.
+func flowsToReturn(v ssa.Value, depth int) bool {
+	if depth > 6 || v.Referrers() == nil {
+		return false
+	}
+	for _, r := range *v.Referrers() {
+		switch x := r.(type) {
+		case *ssa.Return:
+			return true
+		case *ssa.BinOp:
+			if flowsToReturn(x, depth+1) {
+				return true
+			}
+		case *ssa.Convert:
+			if flowsToReturn(x, depth+1) {
+				return true
+			}
+		case *ssa.Phi:
+			if x != v && flowsToReturn(x, depth+1) {
+				return true
+			}
+		}
+	}
+	return false
+}
+
+// ruleCreationPatternOnlyForNewPassphrases (C05, C03): the creation-time passphrase pattern is never used to judge a
+// candidate for an existing wallet.
+func ruleCreationPatternOnlyForNewPassphrases(c *report.Ctx) {
+	p := c.P
+	c.Rule("creation-pattern-only-for-new-passphrases", "keystore.ValidatePassphrase (the character pattern of create-time passphrases) is applied only where a NEW passphrase is chosen — create and the new-passphrase arguments of ChangePrivPassphrase / ChangePubPassphrase: wallets imported from a mnemonic or a keystore file carry passphrases the pattern does not admit, so a pre-check of a candidate passphrase in front of signing, export, mnemonic reveal or removal refuses the right passphrase of such a wallet", 3)
+	vp := fn(c, pkgKeystore, "", "ValidatePassphrase")
+	if vp == nil {
+		return
+	}
+	allowed := map[string]string{"create": "new wallet", "ChangePrivPassphrase": "new private passphrase", "ChangePubPassphrase": "new public passphrase"}
+	n := 0
+	for _, f := range p.ModFuncs {
+		for i, s := range calls(f, vp) {
+			n++
+			owner := apiOwnerOrSelf(p, f)
+			key := siteKey(f, "ValidatePassphrase", i+1)
+			why, ok := allowed[nm(owner)]
+			arg := an.ResolveCell(an.CallOf(s).Args[0])
+			// in the Change* functions only the *new* passphrase parameter may be judged
+			if ok && strings.HasPrefix(nm(owner), "Change") {
+				if par, isPar := arg.(*ssa.Parameter); !isPar || !strings.HasPrefix(strings.ToLower(par.Name()), "new") {
+					ok = false
+				}
+			}
+			if ok && an.FuncPkg(owner) != nil && an.FuncPkg(owner).Path() == pkgKeystore {
+				c.OK(key, why, posOf(c, s))
+			} else {
+				c.Fail(key, "the create-time passphrase pattern is applied to a candidate passphrase of an existing wallet in "+sk(owner)+": a wallet imported with a passphrase outside that pattern (blanks, punctuation) is refused with its own, correct passphrase", posOf(c, s))
+			}
+		}
+	}
+	if n == 0 {
+		c.Fail("ValidatePassphrase", "no use of the creation pattern found (anchor lost)", "")
+	}
+}
+
+// rulePassphraseVerdictReturned (C05, C03): a failed passphrase check makes the exported keystore operation fail.
+func rulePassphraseVerdictReturned(c *report.Ctx, G map[*ssa.Function]bool) {
+	p := c.P
+	c.Rule("passphrase-verdict-returned", "in the keystore package, when a passphrase check (checkPassword, safelyCheckPassword, DeriveKey and their wrappers) fails inside a function that returns an error, no success return of that function is reachable from the failure edge — the verdict cannot be logged and dropped (e.g. assigned to a variable that shadows the one returned). Checks used the other way round (the function fails when the check SUCCEEDS, as ChangePubPassphrase does to refuse the private passphrase as public one) are recognised by their success edge reaching only error returns", 8)
+	n := 0
+	for _, f := range p.ModFuncs {
+		if pk := an.FuncPkg(f); pk == nil || pk.Path() != pkgKeystore || f.Blocks == nil {
+			continue
+		}
+		res := f.Signature.Results()
+		if res.Len() == 0 || !an.IsErrorType(res.At(res.Len()-1).Type()) {
+			continue
+		}
+		cnt := 0
+		for _, s := range p.CallSitesTo(f, G) {
+			call, ok := s.(*ssa.Call)
+			if !ok {
+				continue
+			}
+			errVal := errResultOf(call)
+			if errVal == nil {
+				continue
+			}
+			// the branches on this verdict: (block ending in `if err != nil`, failure successor, success successor)
+			type br struct{ ifb, fail, ok *ssa.BasicBlock }
+			var brs []br
+			if errVal.Referrers() != nil {
+				for _, r := range *errVal.Referrers() {
+					cmp, isCmp := r.(*ssa.BinOp)
+					if !isCmp || !(cmp.Op == token.NEQ || cmp.Op == token.EQL) || !(an.IsNilConst(cmp.X) || an.IsNilConst(cmp.Y)) {
+						continue
+					}
+					if ifi, isIf := firstIfUser(cmp); isIf {
+						b := ifi.Block()
+						if cmp.Op == token.NEQ {
+							brs = append(brs, br{b, b.Succs[0], b.Succs[1]})
+						} else {
+							brs = append(brs, br{b, b.Succs[1], b.Succs[0]})
+						}
+					}
+				}
+			}
+			if len(brs) == 0 {
+				continue // handed on unbranched (return f(...))
+			}
+			succ := map[*ssa.BasicBlock]bool{}
+			for _, x := range brs {
+				succ[x.ok] = true
+			}
+			cnt++
+			n++
+			key := siteKey(f, "verdict-of:"+calleeName(p, call), cnt)
+			isSucc := func(r *ssa.Return, pred *ssa.BasicBlock) bool {
+				switch p.ClassifyReturn(r, pred) {
+				case an.RetSuccess:
+					return true
+				case an.RetMaybe:
+					if len(r.Results) == 0 {
+						return false
+					}
+					return !carriesValue(an.RetOperand(r, len(r.Results)-1), errVal, f, 0)
+				}
+				return false
+			}
+			// inverted use: from the success edge only error returns are reachable
+			inverted := true
+			for _, x := range brs {
+				s0 := &an.Search{P: p, Fn: f, GoalReturn: isSucc}
+				if w := s0.Run(x.ok, 0, x.ifb); w != nil {
+					inverted = false
+				}
+			}
+			if inverted {
+				c.OK(key, "the check is used to refuse (its success leads to error returns only)", posOf(c, call))
+				continue
+			}
+			var wit []string
+			for _, x := range brs {
+				ifb := x.ifb
+				srch := &an.Search{P: p, Fn: f, GoalReturn: isSucc, CutEdge: func(from, to *ssa.BasicBlock) bool { return to == ifb }}
+				if w := srch.Run(x.fail, 0, ifb); w != nil {
+					wit = w
+				}
+			}
+			_ = succ
+			if wit != nil {
+				c.Fail(key, "after "+calleeName(p, call)+" refused the passphrase the function can still return success: the operation it guards (removal, export, signing, mnemonic reveal) goes ahead with a wrong passphrase", posOf(c, call), wit...)
+			} else {
+				c.OK(key, "a refusal ends the function with an error", posOf(c, call))
+			}
+		}
+	}
+	if n == 0 {
+		c.Fail("passphrase-checks", "no branched passphrase check found in the keystore package (anchor lost)", "")
+	}
+}
+
+// ruleKeyLengthTolerant (C03, C14): a derived private key is usable whatever the length of its stored scalar.
+func ruleKeyLengthTolerant(c *report.Ctx) {
+	p := c.P
+	c.Rule("key-length-tolerant", "the methods that use an extended key's scalar (ECPrivKey, ECPubKey, pubKeyBytes, Neuter, String, Child) do not refuse a private key because of the length of ExtendedKey.key: Child stores a derived scalar without its leading zero bytes (one child in 256 is 31 bytes long, see the recorded C14 finding), so a length test makes signing fail with the right passphrase for exactly those addresses — which were derived through the public path, handed out and paid to", 4)
+	n := 0
+	for _, name := range []string{"ECPrivKey", "ECPubKey", "pubKeyBytes", "Neuter", "String", "Child"} {
+		f := fnOpt(c, pkgHD, "ExtendedKey", name)
+		if f == nil {
+			continue
+		}
+		n++
+		key := sk(f) + ":no-length-refusal"
+		bad := false
+		for _, b := range f.Blocks {
+			r, ok := b.Instrs[len(b.Instrs)-1].(*ssa.Return)
+			if !ok {
+				continue
+			}
+			for _, pr := range predsOrNil(b) {
+				if p.ClassifyReturn(r, pr) != an.RetError {
+					continue
+				}
+				for _, a := range p.GuardsOnEdge(pr, b) {
+					if strings.Contains(a.Text, "len(ExtendedKey.key)") && !bad {
+						bad = true
+						c.Fail(key, "an error return of "+nm(f)+" is taken under `"+a.Text+"`: a legitimately short (leading-zero) derived private key is refused, so the wallet cannot sign for an address it issued", posOf(c, r))
+					}
+				}
+			}
+		}
+		if !bad {
+			c.OK(key, "no error return depends on the stored scalar's length", p.Pos(f.Pos()))
+		}
+	}
+	if n == 0 {
+		c.Lost("hdkeychain.ExtendedKey key-use methods")
+	}
+}
